@@ -1,6 +1,6 @@
 (* C04 — speculation is bounded by the prediction window; lockstep never speculates.
    Statements only (same model and conventions as props/C02.v). *)
-From GGRS Require Import Base Consts Queue Sync P2P Session SessionProofs.
+From GGRS Require Import Base Consts Queue Sync P2P Session SessionProofs SessionProgress.
 Open Scope Z_scope.
 
 (* Every LoadGameState of every call names a frame at most max_prediction frames behind the frame
@@ -65,3 +65,26 @@ Example C04_demo :
                    [SLocal 0 1; SAdvance; SLocal 0 1; SAdvance; SLocal 0 1; SAdvance; SLocal 0 1; SAdvance] = Ok (p, outs) /\
                  s_current (ps_sync p) = 2.
 Proof. eexists. eexists. split; vm_compute; reflexivity. Qed.
+
+(* Unconditional in C01's space (see props/C02.v, C02_no_assert_fires_in_space): after ANY run inside
+   the space the session has not run ahead of what it holds: current_frame() is at most
+   max_prediction frames past the last confirmed frame (past frame 0 while nothing is confirmed),
+   and the last confirmed frame never exceeds the frames held from any player. *)
+Theorem C04_window_invariant_in_space :
+  forall (predict : Z -> Z) (n w d : Z) (kinds : list pkind) (eps : list (list Z)) (ops : list sop) p outs,
+  1 <= w -> 0 <= d -> w + d + 3 <= INPUT_QUEUE_LENGTH -> 0 < n -> Z.of_nat (length kinds) = n -> players_only kinds ->
+  srun_in predict (session_start n w false d kinds eps 0) ops = Ok (p, outs) ->
+  s_current (ps_sync p) <= Z.max 0 (s_last_confirmed (ps_sync p)) + w /\
+  Forall (fun st => s_last_confirmed (ps_sync p) <= cs_last st) (ps_status p).
+Proof.
+  intros predict n w d kinds eps ops p outs Hw Hd Hcap Hn Hlen Hpl H.
+  destruct (run_in_space predict ops _ _ (game0 w) w d (QS_start n w d kinds eps Hw Hd Hcap Hn Hlen Hpl)
+              (JI_start n w d kinds eps 0 ltac:(lia))) as [E|(p' & outs' & gs & g & E1 & _ & _ & HQS & _)]; [congruence|].
+  rewrite H in E1. injection E1 as <- <-.
+  split; [destruct (qs_frames _ _ _ _ HQS) as (_ & _ & X); exact X|].
+  pose proof (qs_qs _ _ _ _ HQS) as HQ. pose proof (qs_last _ _ _ _ HQS) as HL.
+  revert HQ HL. generalize (s_queues (ps_sync p)) as qs. generalize (ps_status p) as st. generalize gs as gs0.
+  induction gs0 as [|g0 gs0 IH]; intros st qs HQ HL; inversion HL; subst; [constructor|].
+  inversion HQ; subst. constructor; [|eapply IH; eassumption].
+  match goal with H : QI _ _ _ _ _ |- _ => pose proof (qi_conf _ _ _ _ _ H) end. lia.
+Qed.
